@@ -56,6 +56,8 @@ def run_one(mu, all_checks, tier):
         out["missed_by"] = missed
         out["also_fired"] = other
         out["status"] = "caught" if caught else "SURVIVED"
+        if not mu["props"]:
+            out["status"] = "FALSE ALARM" if other else "silent (as it should be)"
         return out
     except Exception as e:  # noqa: BLE001
         out["status"] = f"runner error: {e!r}"
@@ -72,7 +74,12 @@ def main():
     for a in sys.argv[1:]:
         if a.startswith("--jobs="):
             jobs = int(a.split("=")[1])
-    todo = [mu for mu in mutants.M if mu["id"] not in mutants.DISABLED and (not args or mu["id"] in args)]
+    catalogue = mutants
+    if "--equivalents" in sys.argv:
+        import equivalents as catalogue  # behaviour-preserving refactorings: nothing may fire
+
+        all_checks = True
+    todo = [mu for mu in catalogue.M if mu["id"] not in catalogue.DISABLED and (not args or mu["id"] in args)]
     results = []
     with cf.ThreadPoolExecutor(max_workers=jobs) as ex:
         for r in ex.map(lambda mu: run_one(mu, all_checks, tier), todo):
